@@ -13,7 +13,8 @@ Conventions of the model (what is abstracted, all stated in DESIGN.md §3/§6):
   (a delay, give up, or raise); the policy itself is model M2;
 * Python exceptions raised by the reducer (`IndexError` when no worker id is
   free, `ValueError`/`KeyError` for an unknown worker or step) appear as the
-  explicit command `Cmd.crash`; theorems show it is unreachable.
+  explicit command `Cmd.crash`; theorems show it is unreachable.  An exception
+  raised by the retry policy is caught by the reducer (no retry) and is not a crash.
 Import-free so that `wfdriver` links.
 -/
 namespace Engine
@@ -221,7 +222,8 @@ inductive Tick
 deriving DecidableEq, Repr
 
 /-- what `retry_policy.next(elapsed, failures, exception)` does: a delay, `None` (give up),
-or — user-supplied policies are arbitrary code — an exception -/
+or — user-supplied policies are arbitrary code — an exception (which the reducer catches
+and treats as `None`) -/
 inductive PolDecision | retry (delay : Nat) | stop | raise
 deriving DecidableEq, Repr
 
@@ -397,8 +399,9 @@ def applyRes (cfg : Cfg) (pol : Policy) (step : Nat) (tickEv : Ev) (didComplete 
           [.queueEvent { ev := tickEv, attempts := some failures, firstAt := some acc.exec.firstAt,
                          lastExc := some exc, lastFailedAt := some failedAt, rc := acc.exec.rc }
             (some step) (some d)] }
-    | .raise => { acc with cmds := acc.cmds ++ [.crash] }
-    | .stop =>
+    -- `except Exception: delay = None`: a policy that raises grants no retry (it is logged);
+    -- the step's own failure takes the exhausted path
+    | .raise | .stop =>
       match handlerOwner cfg step with
       | some (h, maxRec) =>
         let newCount := acc.exec.rc.get h + 1
